@@ -36,6 +36,10 @@ var nniCmd = &cobra.Command{
 		r := &tree.NNIRearranger{}
 
 		for t := range treechan {
+			if t.Err != nil {
+				io.LogError(t.Err)
+				return t.Err
+			}
 			r.Rearrange(t.Tree, func(re tree.Rearrangement) bool {
 				if err = re.Apply(); err != nil {
 					return false
